@@ -13,7 +13,8 @@ RULE = ('Hypothesis-generated tables (0-12 records) whose aggregate columns are 
         'COUNT(*)/COUNT( * )/COUNT(1)/COUNT(x), expression arguments, group keys, constants, occasionally a non-constant plain column and the '
         'lower-case builtins with several arguments x {no GROUP BY, 1-2 keys} x WHERE (incl. reject-all) x TOP/LIMIT. Oracle = reference '
         'aggregation with exact Fraction arithmetic (integer data compared exactly incl. type; float data with tolerance '
-        '1e-9*max(1,|ref|,scale)); ANY_VALUE accepts any member. Non-trivial = (>=2 groups or a group of >=3 records) and an aggregate other than COUNT.')
+        '1e-9*max(1,|ref|,scale)); ANY_VALUE accepts any member. Non-trivial = (>=2 groups or a group of >=3 records) and an aggregate other than COUNT.'
+        ' Later additions: integer strings above 2^53, mixed int / float GROUP BY keys, single-iterable builtin forms (generator, map, range, set, dict view), exhaustive value sequences of length <= 3 over {-2..2} per group (strings / ints / floats), deterministic aggregate + builtin mixtures.')
 ASSUMPTIONS = ['mixed-type aggregate columns are outside the stated domain', 'float aggregates are compared with the stated tolerance; exactness only for integer data']
 
 
